@@ -26,7 +26,7 @@ func ruleImportNamesUnique(ctx *Ctx, rule string) {
 	key := "imports.reserve | a spec is appended only after byName found no import of that name"
 	pos := q.Pos(f.Pos())
 	founds := map[ssa.Value]bool{}
-	for _, b := range f.Blocks {
+	for _, b := range frameBlocks(f) {
 		for _, in := range b.Instrs {
 			if c, ok := in.(*ssa.Call); ok && ssaq.StaticCalleeName(c) == "capnpc-go.(*imports).byName" && c.Referrers() != nil {
 				for _, ref := range *c.Referrers() {
@@ -64,7 +64,7 @@ func ruleImportNamesUnique(ctx *Ctx, rule string) {
 		}
 	}
 	var appendBlock *ssa.BasicBlock
-	for _, b := range f.Blocks {
+	for _, b := range frameBlocks(f) {
 		for _, in := range b.Instrs {
 			c, ok := in.(*ssa.Call)
 			if !ok {
